@@ -78,6 +78,12 @@ End C18.
 Theorem C18_use_tracking : forall mac t, fsu_post mac t (fsu mac t).
 Proof. exact fsu_spec. Qed.
 
+(* ... and what is left of the import still compiles: `self` stays a direct member of a braced list
+   (`use interthread::{self, actor};` becomes `use interthread::{self};`, never `use interthread::self;`) *)
+Theorem C18_remaining_import_valid : forall mac t b, self_valid b t = true ->
+  match snd (fsu mac t) with Some t' => self_valid b t' = true | None => True end.
+Proof. exact fsu_self_valid. Qed.
+
 (* the pass of one macro never removes an import of another one: `use interthread::*` and `interthread::{actor, family}`
    still import `family` after the `actor` pass *)
 Theorem C18_other_macro_import_kept : forall mac1 mac2 t, (mac2 =? mac1)%string = false ->
@@ -138,6 +144,7 @@ Print Assumptions C18_attrs_stripped.
 Print Assumptions C18_recognition_position_free.
 Print Assumptions C18_denoted_is_recognised.
 Print Assumptions C18_use_tracking.
+Print Assumptions C18_remaining_import_valid.
 Print Assumptions C18_other_macro_import_kept.
 Print Assumptions C18_is_exact.
 Print Assumptions C18_is_sound.
